@@ -5,6 +5,10 @@ package vm
 // Contracts for the verifier in /verif (comment-only; compiled only with -tags verif).
 // The spec vocabulary (S, top, T1, T2, pushed1, topInt, truthy ...) is defined in /verif/spec.
 
+// The engine's singletons: allocated by the package initialiser; neither the variables nor the
+// Value of an existing Boolean are ever written afterwards (structural obligations immutable.*).
+//@ ginv @C05 singletons: vm.True != nil && vm.True.Value == true && vm.False != nil && vm.False.Value == false && vm.Null != nil && vm.Void != nil
+
 //@ func (vm *VM) nativeBoolToBooleanObject(input bool) (result *object.Boolean)
 //@   modifies nothing
 //@   ensures nb.def: result != nil && result.Value == input && !fresh(result)
